@@ -682,6 +682,11 @@ def del_item(I, obj, idx):
         except Exception as ex:
             raise PyRaise(I.mkexc(type(ex), *ex.args))
         return
+    cls = obj.cls if isinstance(obj, SObj) else type(obj)
+    r = I.lookup_class_attr(cls, "__delitem__") if isinstance(cls, type) and I.is_interp_class(cls) else None
+    if r is not None:
+        I.call_function(r[0], [obj, idx], {}, defcls=r[1])
+        return
     raise Unsupported(f"del item on {type(obj).__name__}")
 
 
